@@ -40,10 +40,10 @@ def replay_splits(run, tier, behs, tmp):
     rng = random.Random(11)
     k = 9
     if tier == "quick":
-        want_tot = {1, 2, 9, 10, 11, 19, 20, 21, 30, 39, 40, 41, 64}
+        want_tot = {1, 2, 9, 10, 11, 19, 20, 21, 30, 39, 40, 41, 64, 69, 70, 71, 80, 149, 150, 160}
         want_thr = {1, 2, 3, 4, 8, 16}
         behs = [x for x in behs if x["total"] in want_tot and x["threads"] in want_thr]
-    samples = private_samples(rng, 64, k)
+    samples = private_samples(rng, 160, k)
     files = []
     for i, s in enumerate(samples):
         fa = os.path.join(tmp, "p%d.fa" % i)
